@@ -16,12 +16,17 @@ Structure:
     `t` maps to itself (`fpIter_first`).
  5. `pos_mono`: a syntactic criterion for monotone bodies.
 
-PROVED PARTIALLY.  FULL STATEMENT (not proved): "evaluation terminates", i.e.
-  theorem evalF_total (f) (hf : Parsed f) (hp : PosFix f) : ∃ iters fuel b, evalF iters fuel f = some b
-The theorems below are partial correctness: they hold whenever the loop stops.  (The
-correspondence run checks termination on every generated monotone body.)
+ 6. "Evaluation terminates": `evalF_total` — on every formula whose fixed-point bodies are
+    monotone the evaluator returns (within 2^(number of variable occurrences) + 1 rounds per loop,
+    recursion depth `depth f`) and the answer denotes the formula; `evalF_total_pos` is the same
+    under the syntactic criterion; `evalF_budget` says the round budget is only a budget: a
+    larger one never changes an answer, so the unbounded loop of the real code returns that
+    answer.  Proof (`Proofs/Termination.lean`): the iterates are canonical diagrams over the
+    finitely many variables of the formula and form a chain; a round that does not stop the
+    loop changes the number of satisfying assignments over those variables strictly.
 -/
 import Rsbdd.Thm.C01
+import Rsbdd.Proofs.Termination
 
 namespace Rsbdd.C06
 open BDD Formula
@@ -127,6 +132,23 @@ theorem fpIter_complete (t : BDD → BDD) : ∀ (k : Nat) (a : BDD), t (iter t k
 even negation ⇒ monotone body -/
 theorem pos_mono (x : Nat) (t : Formula) (h : Pos x t) (ρ : FEnv) : MonoFn (bodyFn t x ρ) :=
   monoFn_of_pos h ρ
+
+/-- "evaluation terminates": monotone bodies ⇒ the evaluator returns, and the answer is right -/
+theorem evalF_total (f : Formula) (hg : GoodF f) :
+    ∃ b, evalF (2 ^ (varsList f).length + 1) (depth f) f = some b ∧
+      ROBDD b ∧ ∀ σ, (eval b σ = true ↔ Sem f FEnv.empty σ) :=
+  Rsbdd.evalF_total f hg
+
+/-- the same for parser output whose fixed-point names occur positively -/
+theorem evalF_total_pos (f : Formula) (hp : C01.PosFix f) :
+    ∃ b, evalF (2 ^ (varsList f).length + 1) (depth f) f = some b ∧
+      ROBDD b ∧ ∀ σ, (eval b σ = true ↔ Sem f FEnv.empty σ) :=
+  Rsbdd.evalF_total f (C01.goodF_of_posFix f hp)
+
+/-- the round budget of the model is only a budget: any larger budget gives the same answer -/
+theorem evalF_budget {i i' : Nat} (hle : i ≤ i') (fuel : Nat) (f : Formula) (b : BDD)
+    (h : evalF i fuel f = some b) : evalF i' fuel f = some b :=
+  evalF_iters_mono hle fuel f b h
 
 -- non-vacuity: positive occurrences under a quantifier, an at-least list, a double
 -- negation, an ite branch, and a nested gfp that also mentions the outer name
